@@ -81,8 +81,12 @@ def insertSorted (s : String) : List String → List String
 
 def sortStrings (l : List String) : List String := l.foldr insertSorted []
 
+/-- `-0` and `0` are one value (`Compare`): which of them a DISTINCT / MIN / MAX keeps depends on arrival order -/
+def normCell (c : String) : String := if c == "#-0" then "#0" else c
+
 def renderSorted (rows : List Plan.Row) : String :=
-  String.intercalate " | " (s!"rows {rows.length}" :: sortStrings (rows.map fun r => SqlCodec.renderRow r.vals))
+  String.intercalate " | " (s!"rows {rows.length}" ::
+    sortStrings (rows.map fun r => String.intercalate " " (r.vals.map fun v => normCell (SqlCodec.renderCell v))))
 
 /-- the plan, then the outermost ORDER BY / LIMIT as the csv / json / stream_native arm of cmd/root.go applies it -/
 def runTop (db : Db) (top : Top) (p : Plan) : String :=
@@ -126,9 +130,6 @@ def model (toks : List String) : String :=
   | _ => "bad-op"
 
 /-! ### the oracle -/
-
-/-- `-0` and `0` are one value (`Compare`); everything else the generator produces prints canonically -/
-def normCell (c : String) : String := if c == "#-0" then "#0" else c
 
 def normRows (out : List String) : Option (List String) :=
   (SqlCodec.splitRows out).map fun rows =>
@@ -202,7 +203,7 @@ def removableB (f : String) : Plan → Bool
       (match k with
        | .sjoin _ _ => true
        | .ljoin => !l.fields.contains f
-       | .ojoin _ _ _ _ => !s.fields.contains f)
+       | .ojoin _ _ _ _ => true)
 
 def noMapHasB (f : String) : Plan → Bool
   | .leaf _ _ => true
